@@ -563,6 +563,35 @@ func (s *Slicer) resolveAddr(a ssa.Value, chain []step, st *frame) []Prov {
 		if _, ok := s.w.embedText(x); ok && s.w.globalNeverStored(x) {
 			return []Prov{{Kind: "const"}}
 		}
+		// a table of constants written once by the package initialiser: the selected member of its rows
+		if rows, ok := globalTable(s.w, x); ok {
+			var fld *types.Var
+			for _, stp := range chain {
+				if stp.f != nil {
+					fld = stp.f
+					break
+				}
+			}
+			allConst := len(rows) > 0
+			for _, r := range rows {
+				for k, v := range r {
+					if fld != nil {
+						if et := tableElemStruct(x); et == nil || k >= et.NumFields() || et.Field(k) != fld {
+							continue
+						}
+					}
+					if _, isF := v.Type().Underlying().(*types.Signature); isF {
+						continue
+					}
+					if _, isK := v.(*ssa.Const); !isK {
+						allConst = false
+					}
+				}
+			}
+			if allConst {
+				return []Prov{{Kind: "const"}}
+			}
+		}
 		return []Prov{{Kind: "global", Desc: x.Name()}}
 	case *ssa.UnOp:
 		// pointer loaded from somewhere: **p
@@ -798,4 +827,17 @@ func (s *Slicer) specialisedReturns(call *ssa.Call, cal *ssa.Function) []*ssa.Re
 		}
 	}
 	return all
+}
+
+// tableElemStruct: the struct type of the rows of a package-level slice/array of structs.
+func tableElemStruct(g *ssa.Global) *types.Struct {
+	t := g.Type().Underlying().(*types.Pointer).Elem().Underlying()
+	switch x := t.(type) {
+	case *types.Slice:
+		t = x.Elem().Underlying()
+	case *types.Array:
+		t = x.Elem().Underlying()
+	}
+	st, _ := t.(*types.Struct)
+	return st
 }
